@@ -6,7 +6,7 @@ import (
 	"os"
 )
 
-type genFn func(out *Out, r *Rng, tier string, n int)
+type genFn func(out *Out, r *Rng, tier string, n int, shard int)
 
 var gens = map[string]genFn{
 	"C04": genC04,
@@ -35,5 +35,5 @@ func main() {
 	out, closeFn := NewOut(*outp, fmt.Sprintf("%s-s%d-%d", prop, *seed, *shard))
 	defer closeFn()
 	r := NewRng(*seed*1000003 + uint64(*shard)*7919)
-	g(out, r, *tier, *n)
+	g(out, r, *tier, *n, *shard)
 }
